@@ -5,6 +5,7 @@ META = dict(
     level_note='Only run-time container kinds (fixed std::array, bounded static_vector, mixed). Compile-time constant / clipped index kinds, the 15 ndarray shape x buffer kinds, Boost containers and gcc-vs-clang are facts about template instantiation for which no function contract exists (not applicable part).',
     trusted_base=['clang 14 front end', 'engine/cxx2c.py', 'cbmc 6.11.0 --dfcc', 'C model of std::array'],
     assumptions=['UF mode for * / % with the axioms of models/prelude.h', 'kind F fixed at N=3 (the template_for expansion is per N)'],
+    explanation='Kind F (std::array<size_t,3>) takes the meta::template_for branches, kind B (utl::static_vector<size_t,8>) the run-time for branches; both are discharged against the same post_ predicates of spec/c01.h (kind F through sv_of_a3).',
     not_covered=['constant (ct) and clipped index kinds (values computed in the type by resolve_optype)', 'dynamic lists (std::vector / utl::vector)', 'ndarray kinds, Boost containers, NMTOOLS_DISABLE_STL configuration', 'compile-time vs run-time evaluation (constexpr) equality'],
 )
 UNITS = [
